@@ -118,10 +118,10 @@ class Scn:
                            default_combos={"a": _ns["draw_a"],
                                            "b": _ns["draw_b"]})
 
-    def new_crop(self, d, autoload=True):
+    def new_crop(self, d, autoload=True, far=None):
         import xyzpy as xyz
 
-        far = self.farmer(d)
+        far = far if far is not None else self.farmer(d)
         if far is None:
             return xyz.Crop(fn=self.f, name="k", parent_dir=d,
                             autoload=autoload, **self.batch)
@@ -145,8 +145,8 @@ class Scn:
         else:
             crop.sow_combos(self.combos, verbosity=0)
 
-    def seed_earlier(self, d):
-        far = self.farmer(d)
+    def seed_earlier(self, d, far=None):
+        far = far if far is not None else self.farmer(d)
         if self.kind == "harvester" and self.earlier == "disjoint":
             far.harvest_combos({"a": [7], "b": [4, 5]}, verbosity=0)
         elif self.kind == "harvester" and self.earlier == "overlap":
